@@ -133,9 +133,25 @@ class EditWorld(object):
     def problem(self, key, detail):
         self.problems.append((key, detail, self.opi))
 
-    def both(self, f):
+    def both(self, f, copy_based=False):
         """Apply f(tree) -> tree to the live tree and, in twin mode, to the twin."""
+        old = self.tree
+        snap = None
+        if copy_based and ("c06" in self.oracles or "c07" in self.oracles):
+            snap = (monitors.node_arrays(old), bridge.canon_tree(old))
         self.tree = f(self.tree)
+        if snap is not None and self.tree is not old:
+            # the move worked on copies: the tree it started from must be untouched (no arrays or lists shared with the copy)
+            try:
+                now = (monitors.node_arrays(old), bridge.canon_tree(old))
+                same = now[1] == snap[1] and set(now[0]) == set(snap[0]) and all(
+                    (snap[0][k][j] is None or monitors.close(snap[0][k][j], now[0][k][j], atol=0.0, rtol=0.0)) for k in snap[0] for j in (0, 1))
+            except Exception:
+                same = False
+            if not same:
+                self.problem({"sub": "aliasing", "what": "source_tree_changed_by_edit_of_copy"},
+                             "op %d edited a copy, yet the tree it was copied from changed" % self.opi)
+            self.probe("copy_based_move_checked_for_aliasing")
         if self.twin is not None:
             self.twin = f(self.twin)
 
@@ -240,7 +256,7 @@ class EditWorld(object):
                 else:
                     nt.add_data_point_to_node(self.data[dp], nt.labels[ref])
                 return nt
-            self.both(f)
+            self.both(f, copy_based=True)
             return True
         if kind == "prg":
             if len(m.own) <= 1:
@@ -263,7 +279,7 @@ class EditWorld(object):
                 nt.add_subtree(s, parent=None if ref_par is None else nt.labels[ref_par])
                 nt.update()
                 return nt
-            self.both(f)
+            self.both(f, copy_based=True)
             return True
         if kind == "subtree":
             if not m.own:
